@@ -102,11 +102,12 @@ class CellModel(torch.nn.Module):
     def __init__(self, st, in_dim, width):
         super().__init__()
         self.st = st
-        self.lin = torch.nn.Linear(max(in_dim, 1), width)
+        self.in_dim = max(in_dim, 1)
+        self.lin = torch.nn.Linear(self.in_dim, width)
 
     def forward(self, x):
         if isinstance(x, MultiEmbeddingTensor):
-            v = x.values.reshape(x.num_rows, 1, -1)
+            v = x.values.reshape(x.num_rows, 1, self.in_dim)
         elif isinstance(x, MultiNestedTensor):
             cnt = (x.offset[1:] - x.offset[:-1]).to(torch.get_default_dtype())
             v = cnt.reshape(x.num_rows, 1, 1)
@@ -271,3 +272,35 @@ def cna(na):
 
 def fin(x):
     return isinstance(x, float) and math.isfinite(x)
+
+
+# ------------------------------------------------- stubs for embedded columns
+class TextStub:
+    """text embedder emitting the default dtype (dfgen's stub is float32 only)"""
+
+    def __init__(self, w=3):
+        self.w = w
+
+    def __call__(self, xs):
+        from harness import dfgen as G
+        return torch.tensor([G.hash_vec(str(x), self.w) for x in xs],
+                            dtype=torch.get_default_dtype()).reshape(len(xs), self.w)
+
+
+def image_stub(w=2):
+    from torch_frame.config.image_embedder import ImageEmbedder
+    from harness import dfgen as G
+
+    class ImageStub(ImageEmbedder):
+        def __init__(self):
+            super().__init__()
+            self.w = w
+
+        def forward_retrieve(self, paths):
+            return list(paths)
+
+        def forward_embed(self, images):
+            return torch.tensor([G.hash_vec(str(x), self.w) for x in images],
+                                dtype=torch.get_default_dtype()).reshape(len(images), self.w)
+
+    return ImageStub()
